@@ -383,6 +383,11 @@ def _tag(cont):
     return {p: tagged(v) for p, v in cont.items() if v != 0}
 
 
+def plain_value(v):
+    """content values are tagged (type name, value) pairs in this module"""
+    return v[1] if isinstance(v, tuple) and len(v) == 2 and isinstance(v[0], str) else v
+
+
 def o_add(cf, cg):
     return _tag({p: cf.get(p, 0) + cg.get(p, 0) for p in set(cf) | set(cg)})
 
@@ -489,6 +494,23 @@ def check_fibers(case, rec):
         value_form(operator.mul, mk_s(), mk_f(), muls, "s * f", within=stored_f)
         inplace_form(operator.iadd, mk_s(), adds, "f += s")
         inplace_form(operator.imul, mk_s(), muls, "f *= s")
+        # the forms composed: what an earlier in-place operation leaves behind (e.g. the active range that
+        # populate copies from its source) must not change what the next one does
+        seq_add = o_add_scalar({p: plain_value(v) for p, v in add.items()}, s, shape)
+        def mk_g_narrow():
+            g = mk_g()
+            if g.coords:
+                g.setActive((g.coords[0], g.coords[-1] + 1))      # an active range narrower than the shape
+            return g
+        x = mk_f()
+        x += mk_g_narrow()
+        x += mk_s()
+        same(fcontent(x, d, "f += g; f += s"), seq_add, "f += g (narrow active range); f += s")
+        seq_mul = o_mul_scalar({p: plain_value(v) for p, v in add.items()}, s)
+        x = mk_f()
+        x += mk_g()
+        x *= mk_s()
+        same(fcontent(x, d, "f += g; f *= s"), seq_mul, "f += g; f *= s")
 
     # classification
     pf, pg = set(cf), set(cg)
